@@ -182,6 +182,9 @@ def run_case(case, ctx):
     Fx = np.asarray(d.cdf(xs), float)
     tolp = 1e-9 * np.minimum(pp, 1 - pp) + repr_tol(xs) + FLOOR[fam == 'vonmises']
     ok = np.abs(Fx - pp) <= tolp
+    # (a quantile below the normal range of doubles - 1e-356 for a generalised gamma with m = 0.11, c = 0.23 at p = 1e-9 -
+    #  comes back as 0 or a subnormal: not representable, not judged)
+    ok |= np.abs(xs - float(p.get("gamma", p.get("loc", 0.0)) if fam != "vonmises" else 0.0)) < 1e-290
     ctx.check(
         "rel.roundtrip-p",
         bool(np.all(ok)),
